@@ -155,7 +155,7 @@ struct Slot {
 static SLOTS: Mutex<Vec<Arc<Mutex<Slot>>>> = Mutex::new(Vec::new());
 static WATCHDOG_STARTED: AtomicBool = AtomicBool::new(false);
 /// CPU seconds a single case may use before it is declared non-returning.
-pub const CASE_CPU_LIMIT_S: u64 = 90;
+pub const CASE_CPU_LIMIT_S: u64 = 30;
 
 thread_local! {
     static MY_SLOT: RefCell<Option<Arc<Mutex<Slot>>>> = const { RefCell::new(None) };
